@@ -64,6 +64,7 @@ RULE = ('programs: forests of <= 3 / <= 4 block nodes over 24 kinds; faults: '
 ASSUMPTIONS = ['tree rendering needs URL and RESPONSE in the namespace; the '
                'harness supplies both']
 CASE_CPU_SECONDS = 300.0
+CASE_CPU_SECONDS_QUICK = 120.0
 
 KINDS = ('in', 'inb', 'inmap', 'inbmap', 'inmix', 'inbmix', 'inempty', 'inbempty', 'if2', 'with', 'withonly', 'let', 'if', 'try', 'tryh',
          'tryf', 'fin', 'raise', 'sub', 'subtuple', 'tree', 'treex', 'treedm', 'treedp')
